@@ -703,3 +703,335 @@ Theorem model_is_source_C19_Mesh : forall (A : Arith) (X : Type), @SrcEqMesh.mod
 Proof. intros A X. exact SrcEqMesh.model_is_source_Mesh_lemma. Qed.
 Check model_is_source_C19_Mesh : forall (A : Arith) (X : Type), @SrcEqMesh.model_is_source_Mesh A X.
 Print Assumptions model_is_source_C19_Mesh.
+
+(* Proofs/Round2PinExact.v -- package round2, item 4: pin blocks (format of CONVENTIONS section 2) for the binary64
+   exactness theorems of Proofs/Round2Lin.v (C15: linspace), Proofs/Round2Mesh.v (C19: Mesh1D::trapezium) and
+   Proofs/Round2MeshB.v (C19: Mesh1D::get_interpolated_vars).  To be appended to Props/C15.v resp. Props/C19.v.
+   FR x = real value of the primitive float x, ffinite x = x is finite (Proofs/ComplexRound.v); bpow radix2 e = 2^e. *)
+From Coq Require Import ZArith Reals Floats Lia Lra List Bool Arith.
+From Flocq Require Import Core.Core IEEE754.BinarySingleNaN IEEE754.PrimFloat.
+From OV Require Import Base.Panic Base.Arith Model.Vector Model.Mesh Inst.FloatInst Proofs.MeshBase Proofs.MeshQuad
+                       Proofs.ParDotFloat Proofs.ComplexRound Proofs.Round2Lin Proofs.Round2Mesh Proofs.Round2MeshB.
+From OV Require gen.Params.
+Import ListNotations.
+
+(* ==== C19 ==== *)
+(* Mesh1D::trapezium at binary64 ("integer-valued, so f64 results are exact"): node coordinates X_k 2^e and nodal
+   data F_k 2^g (integer-valued data: g = 0; integer nodes: e = 0) with cell widths, neighbour sums and the running
+   sum of |numerators| below 2^53: the result is finite and EXACTLY the value of the rule over the reals. *)
+Theorem trapezium_exact_float : forall (m : mesh1 AF PrimFloat.float) (var : nat) (X F : nat -> Z) (e g : Z),
+  let n := length (m1_nodes m) in
+  let x := fun k => nth k (m1_nodes m) 0%float in
+  let f := fun k => nth var (nth k (m1_vars m) []) 0%float in
+  let c := fun k => ((X (k + 1)%nat - X k) * (F k + F (k + 1)%nat))%Z in
+  wf1 m -> (var < m1_nvars m)%nat -> (1 <= n)%nat ->
+  (forall k, (k < n)%nat -> ffinite (x k) /\ FR (x k) = (IZR (X k) * bpow radix2 e)%R) ->
+  (forall k, (k < n)%nat -> ffinite (f k) /\ FR (f k) = (IZR (F k) * bpow radix2 g)%R) ->
+  (-1073 <= e <= 971)%Z -> (-1074 <= g <= 971)%Z -> (-1073 <= e + g <= 972)%Z ->
+  (forall k, (k + 1 < n)%nat -> (Z.abs (X (k + 1)%nat - X k) < 2 ^ 53)%Z) ->
+  (forall k, (k + 1 < n)%nat -> (Z.abs (F k + F (k + 1)%nat) < 2 ^ 53)%Z) ->
+  (zsum_n (n - 1) (fun k => Z.abs (c k)) < 2 ^ 53)%Z ->
+  exists r, trapezium1 (A := AF) 0.5%float m var = Ok r /\ ffinite r /\
+            FR r = sumR (n - 1) (fun k => (/ 2 * (FR (x (k + 1)%nat) - FR (x k)) * (FR (f k) + FR (f (k + 1)%nat)))%R) /\
+            FR r = (IZR (zsum_n (n - 1) c) * bpow radix2 (e + g - 1))%R.
+Proof.
+  intros m var X F e g n x f c Hwf Hv Hn HX HF He Hg Heg Hdx Hs Hb.
+  exact (trapezium_exact_float_lemma m var X F e g Hwf Hv Hn HX HF He Hg Heg Hdx Hs Hb).
+Qed.
+Check trapezium_exact_float : forall (m : mesh1 AF PrimFloat.float) (var : nat) (X F : nat -> Z) (e g : Z),
+  let n := length (m1_nodes m) in
+  let x := fun k => nth k (m1_nodes m) 0%float in
+  let f := fun k => nth var (nth k (m1_vars m) []) 0%float in
+  let c := fun k => ((X (k + 1)%nat - X k) * (F k + F (k + 1)%nat))%Z in
+  wf1 m -> (var < m1_nvars m)%nat -> (1 <= n)%nat ->
+  (forall k, (k < n)%nat -> ffinite (x k) /\ FR (x k) = (IZR (X k) * bpow radix2 e)%R) ->
+  (forall k, (k < n)%nat -> ffinite (f k) /\ FR (f k) = (IZR (F k) * bpow radix2 g)%R) ->
+  (-1073 <= e <= 971)%Z -> (-1074 <= g <= 971)%Z -> (-1073 <= e + g <= 972)%Z ->
+  (forall k, (k + 1 < n)%nat -> (Z.abs (X (k + 1)%nat - X k) < 2 ^ 53)%Z) ->
+  (forall k, (k + 1 < n)%nat -> (Z.abs (F k + F (k + 1)%nat) < 2 ^ 53)%Z) ->
+  (zsum_n (n - 1) (fun k => Z.abs (c k)) < 2 ^ 53)%Z ->
+  exists r, trapezium1 (A := AF) 0.5%float m var = Ok r /\ ffinite r /\
+            FR r = sumR (n - 1) (fun k => (/ 2 * (FR (x (k + 1)%nat) - FR (x k)) * (FR (f k) + FR (f (k + 1)%nat)))%R) /\
+            FR r = (IZR (zsum_n (n - 1) c) * bpow radix2 (e + g - 1))%R.
+Print Assumptions trapezium_exact_float.
+(* nodes 0, 1/4, 3/4, 2 (grid 2^-2), integer data 3, -5, 7, 2: the rule gives 47/8 = 5.875 exactly *)
+Example trapezium_exact_float_nonvacuous :
+  let m := ex_tmesh in
+  let n := length (m1_nodes m) in
+  let x := fun k => nth k (m1_nodes m) 0%float in
+  let f := fun k => nth 0 (nth k (m1_vars m) []) 0%float in
+  let c := fun k => ((ex_tX (k + 1)%nat - ex_tX k) * (ex_tF k + ex_tF (k + 1)%nat))%Z in
+  wf1 m /\ (0 < m1_nvars m)%nat /\ (1 <= n)%nat /\
+  (forall k, (k < n)%nat -> ffinite (x k) /\ FR (x k) = (IZR (ex_tX k) * bpow radix2 (-2))%R) /\
+  (forall k, (k < n)%nat -> ffinite (f k) /\ FR (f k) = (IZR (ex_tF k) * bpow radix2 0)%R) /\
+  (-1073 <= -2 <= 971)%Z /\ (-1074 <= 0 <= 971)%Z /\ (-1073 <= -2 + 0 <= 972)%Z /\
+  (forall k, (k + 1 < n)%nat -> (Z.abs (ex_tX (k + 1)%nat - ex_tX k) < 2 ^ 53)%Z) /\
+  (forall k, (k + 1 < n)%nat -> (Z.abs (ex_tF k + ex_tF (k + 1)%nat) < 2 ^ 53)%Z) /\
+  (zsum_n (n - 1) (fun k => Z.abs (c k)) < 2 ^ 53)%Z /\
+  trapezium1 (A := AF) 0.5%float m 0 = Ok 5.875%float.
+Proof.
+  cbv zeta. split; [exact ex_tmesh_wf|]. split; [cbn; lia|]. split; [cbn; lia|].
+  split; [exact ex_tmesh_nodes|]. split; [exact ex_tmesh_vals|].
+  split; [lia|]. split; [lia|]. split; [lia|].
+  split; [exact ex_tmesh_dx|]. split; [exact ex_tmesh_df|]. split; [vm_compute; reflexivity|exact ex_tmesh_value].
+Qed.
+
+(* Mesh2D::trapezium at binary64: coordinates X_i 2^ex, Y_j 2^ey, nodal data F_ij 2^g (integer-valued: g = 0); cell
+   sizes, the partial sums of the four corner values and the running sum of |numerators| below 2^53: the single
+   running sum over both loops is exact and equals the double sum of the rule over the reals. *)
+Theorem trapezium2_exact_float : forall (m : mesh2 AF PrimFloat.float) (var : nat) (X Y : nat -> Z) (F : nat -> nat -> Z)
+  (ex ey g : Z),
+  let nx := m2_nx m in let ny := m2_ny m in
+  let x := fun i => nth i (m2_x m) 0%float in
+  let y := fun j => nth j (m2_y m) 0%float in
+  let f := fun i j => nth var (nth (i * m2_ny m + j) (m2_vars m) []) 0%float in
+  let c := fun i j => ((X (i + 1)%nat - X i) * (Y (j + 1)%nat - Y j)
+                       * (F i j + F (i + 1)%nat j + F i (j + 1)%nat + F (i + 1)%nat (j + 1)%nat))%Z in
+  wf2 m -> (var < m2_nvars m)%nat -> (1 <= nx)%nat -> (1 <= ny)%nat ->
+  (forall i, (i < nx)%nat -> ffinite (x i) /\ FR (x i) = (IZR (X i) * bpow radix2 ex)%R) ->
+  (forall j, (j < ny)%nat -> ffinite (y j) /\ FR (y j) = (IZR (Y j) * bpow radix2 ey)%R) ->
+  (forall i j, (i < nx)%nat -> (j < ny)%nat -> ffinite (f i j) /\ FR (f i j) = (IZR (F i j) * bpow radix2 g)%R) ->
+  (-1072 <= ex <= 971)%Z -> (-1074 <= ey <= 971)%Z -> (-1074 <= g <= 971)%Z ->
+  (-1072 <= ex + ey <= 973)%Z -> (-1072 <= ex + ey + g <= 973)%Z ->
+  (forall i, (i + 1 < nx)%nat -> (Z.abs (X (i + 1)%nat - X i) < 2 ^ 53)%Z) ->
+  (forall j, (j + 1 < ny)%nat -> (Z.abs (Y (j + 1)%nat - Y j) < 2 ^ 53)%Z) ->
+  (forall i j, (i + 1 < nx)%nat -> (j + 1 < ny)%nat ->
+     (Z.abs ((X (i + 1)%nat - X i) * (Y (j + 1)%nat - Y j)) < 2 ^ 53)%Z) ->
+  (forall i j, (i + 1 < nx)%nat -> (j + 1 < ny)%nat ->
+     (Z.abs (F i j + F (i + 1)%nat j) < 2 ^ 53 /\ Z.abs (F i j + F (i + 1)%nat j + F i (j + 1)%nat) < 2 ^ 53 /\
+      Z.abs (F i j + F (i + 1)%nat j + F i (j + 1)%nat + F (i + 1)%nat (j + 1)%nat) < 2 ^ 53)%Z) ->
+  (zsum_n (nx - 1) (fun i => zsum_n (ny - 1) (fun j => Z.abs (c i j))) < 2 ^ 53)%Z ->
+  exists r, trapezium2 (A := AF) 0.25%float m var = Ok r /\ ffinite r /\
+    FR r = sumR (nx - 1) (fun i => sumR (ny - 1) (fun j =>
+             (/ 4 * (FR (x (i + 1)%nat) - FR (x i)) * (FR (y (j + 1)%nat) - FR (y j))
+             * (FR (f i j) + FR (f (i + 1)%nat j) + FR (f i (j + 1)%nat) + FR (f (i + 1)%nat (j + 1)%nat)))%R)) /\
+    FR r = (IZR (zsum_n (nx - 1) (fun i => zsum_n (ny - 1) (c i))) * bpow radix2 (ex + ey + g - 2))%R.
+Proof.
+  intros m var X Y F ex ey g nx ny x y f c Hwf Hv Hnx Hny HX HY HF Hex Hey Hg Hxy Hxyg Hdx Hdy Hdxy HS Hb.
+  exact (trapezium2_exact_float_lemma m var X Y F ex ey g Hwf Hv Hnx Hny HX HY HF Hex Hey Hg Hxy Hxyg Hdx Hdy Hdxy HS Hb).
+Qed.
+Check trapezium2_exact_float : forall (m : mesh2 AF PrimFloat.float) (var : nat) (X Y : nat -> Z) (F : nat -> nat -> Z)
+  (ex ey g : Z),
+  let nx := m2_nx m in let ny := m2_ny m in
+  let x := fun i => nth i (m2_x m) 0%float in
+  let y := fun j => nth j (m2_y m) 0%float in
+  let f := fun i j => nth var (nth (i * m2_ny m + j) (m2_vars m) []) 0%float in
+  let c := fun i j => ((X (i + 1)%nat - X i) * (Y (j + 1)%nat - Y j)
+                       * (F i j + F (i + 1)%nat j + F i (j + 1)%nat + F (i + 1)%nat (j + 1)%nat))%Z in
+  wf2 m -> (var < m2_nvars m)%nat -> (1 <= nx)%nat -> (1 <= ny)%nat ->
+  (forall i, (i < nx)%nat -> ffinite (x i) /\ FR (x i) = (IZR (X i) * bpow radix2 ex)%R) ->
+  (forall j, (j < ny)%nat -> ffinite (y j) /\ FR (y j) = (IZR (Y j) * bpow radix2 ey)%R) ->
+  (forall i j, (i < nx)%nat -> (j < ny)%nat -> ffinite (f i j) /\ FR (f i j) = (IZR (F i j) * bpow radix2 g)%R) ->
+  (-1072 <= ex <= 971)%Z -> (-1074 <= ey <= 971)%Z -> (-1074 <= g <= 971)%Z ->
+  (-1072 <= ex + ey <= 973)%Z -> (-1072 <= ex + ey + g <= 973)%Z ->
+  (forall i, (i + 1 < nx)%nat -> (Z.abs (X (i + 1)%nat - X i) < 2 ^ 53)%Z) ->
+  (forall j, (j + 1 < ny)%nat -> (Z.abs (Y (j + 1)%nat - Y j) < 2 ^ 53)%Z) ->
+  (forall i j, (i + 1 < nx)%nat -> (j + 1 < ny)%nat ->
+     (Z.abs ((X (i + 1)%nat - X i) * (Y (j + 1)%nat - Y j)) < 2 ^ 53)%Z) ->
+  (forall i j, (i + 1 < nx)%nat -> (j + 1 < ny)%nat ->
+     (Z.abs (F i j + F (i + 1)%nat j) < 2 ^ 53 /\ Z.abs (F i j + F (i + 1)%nat j + F i (j + 1)%nat) < 2 ^ 53 /\
+      Z.abs (F i j + F (i + 1)%nat j + F i (j + 1)%nat + F (i + 1)%nat (j + 1)%nat) < 2 ^ 53)%Z) ->
+  (zsum_n (nx - 1) (fun i => zsum_n (ny - 1) (fun j => Z.abs (c i j))) < 2 ^ 53)%Z ->
+  exists r, trapezium2 (A := AF) 0.25%float m var = Ok r /\ ffinite r /\
+    FR r = sumR (nx - 1) (fun i => sumR (ny - 1) (fun j =>
+             (/ 4 * (FR (x (i + 1)%nat) - FR (x i)) * (FR (y (j + 1)%nat) - FR (y j))
+             * (FR (f i j) + FR (f (i + 1)%nat j) + FR (f i (j + 1)%nat) + FR (f (i + 1)%nat (j + 1)%nat)))%R)) /\
+    FR r = (IZR (zsum_n (nx - 1) (fun i => zsum_n (ny - 1) (c i))) * bpow radix2 (ex + ey + g - 2))%R.
+Print Assumptions trapezium2_exact_float.
+(* x in {0, 1/2}, y in {0, 1, 3}, data 1 + 8x + 3y + 16xy at the nodes (integers): the rule gives 81/4 exactly *)
+Example trapezium2_exact_float_nonvacuous :
+  let m := ex_tmesh2 in
+  let nx := m2_nx m in let ny := m2_ny m in
+  let x := fun i => nth i (m2_x m) 0%float in
+  let y := fun j => nth j (m2_y m) 0%float in
+  let f := fun i j => nth 0 (nth (i * m2_ny m + j) (m2_vars m) []) 0%float in
+  wf2 m /\ (0 < m2_nvars m)%nat /\ (1 <= nx)%nat /\ (1 <= ny)%nat /\
+  (forall i, (i < nx)%nat -> ffinite (x i) /\ FR (x i) = (IZR (ex_t2X i) * bpow radix2 (-1))%R) /\
+  (forall j, (j < ny)%nat -> ffinite (y j) /\ FR (y j) = (IZR (ex_t2Y j) * bpow radix2 0)%R) /\
+  (forall i j, (i < nx)%nat -> (j < ny)%nat -> ffinite (f i j) /\ FR (f i j) = (IZR (ex_t2F i j) * bpow radix2 0)%R) /\
+  (-1072 <= -1 <= 971)%Z /\ (-1074 <= 0 <= 971)%Z /\ (-1072 <= -1 + 0 <= 973)%Z /\ (-1072 <= -1 + 0 + 0 <= 973)%Z /\
+  (forall i, (i + 1 < nx)%nat -> (Z.abs (ex_t2X (i + 1)%nat - ex_t2X i) < 2 ^ 53)%Z) /\
+  (forall j, (j + 1 < ny)%nat -> (Z.abs (ex_t2Y (j + 1)%nat - ex_t2Y j) < 2 ^ 53)%Z) /\
+  (forall i j, (i + 1 < nx)%nat -> (j + 1 < ny)%nat ->
+     (Z.abs ((ex_t2X (i + 1)%nat - ex_t2X i) * (ex_t2Y (j + 1)%nat - ex_t2Y j)) < 2 ^ 53)%Z) /\
+  (forall i j, (i + 1 < nx)%nat -> (j + 1 < ny)%nat ->
+     (Z.abs (ex_t2F i j + ex_t2F (i + 1)%nat j) < 2 ^ 53 /\
+      Z.abs (ex_t2F i j + ex_t2F (i + 1)%nat j + ex_t2F i (j + 1)%nat) < 2 ^ 53 /\
+      Z.abs (ex_t2F i j + ex_t2F (i + 1)%nat j + ex_t2F i (j + 1)%nat + ex_t2F (i + 1)%nat (j + 1)%nat) < 2 ^ 53)%Z) /\
+  (zsum_n (nx - 1) (fun i => zsum_n (ny - 1) (fun j => Z.abs
+     ((ex_t2X (i + 1)%nat - ex_t2X i) * (ex_t2Y (j + 1)%nat - ex_t2Y j)
+      * (ex_t2F i j + ex_t2F (i + 1)%nat j + ex_t2F i (j + 1)%nat + ex_t2F (i + 1)%nat (j + 1)%nat)))) < 2 ^ 53)%Z /\
+  trapezium2 (A := AF) 0.25%float m 0 = Ok 20.25%float.
+Proof.
+  cbv zeta. split; [exact ex_tmesh2_wf|]. split; [cbn; lia|]. split; [cbn; lia|]. split; [cbn; lia|].
+  split; [exact ex_tmesh2_x|]. split; [exact ex_tmesh2_y|]. split; [exact ex_tmesh2_f|].
+  split; [lia|]. split; [lia|]. split; [lia|]. split; [lia|].
+  split; [intros i Hi; destruct i as [|i]; [cbn; lia|cbn in Hi; lia]|].
+  split; [intros j Hj; do 2 (destruct j as [|j]; [cbn; lia|]); cbn in Hj; lia|].
+  split; [intros i j Hi Hj; destruct i as [|i]; [|cbn in Hi; lia]; do 2 (destruct j as [|j]; [cbn; lia|]); cbn in Hj; lia|].
+  split; [intros i j Hi Hj; destruct i as [|i]; [|cbn in Hi; lia]; do 2 (destruct j as [|j]; [cbn; lia|]); cbn in Hj; lia|].
+  split; [vm_compute; reflexivity|exact ex_tmesh2_value].
+Qed.
+
+(* Mesh1D::get_interpolated_vars at binary64 with the code's window (MESH_SNAP = 1e-7): node coordinates X_k 2^e on
+   a grid no finer than the window (e >= -23), strictly increasing; x = Xx 2^e on the grid, j the LAST cell containing
+   it; cell j of width 2^P 2^e with nodal data F 2^g (integer-valued: g = 0) whose numerators, scaled by 2^P, fit in
+   53 bits.  Then the result is finite and EXACTLY the linear interpolant over the reals; at the left node of the
+   cell it returns that node's values and at the last node of the mesh the last node's values.
+   (Every cell is tested and a later matching cell overwrites: at an interior node both neighbouring cells match.) *)
+Theorem interp_exact_float : forall (m : mesh1 AF PrimFloat.float) (x : PrimFloat.float) (X F0 F1 : nat -> Z)
+  (Xx e g P : Z) (j : nat),
+  let n := length (m1_nodes m) in
+  let xs := fun k => nth k (m1_nodes m) 0%float in
+  let L := fun v => nth v (nth j (m1_vars m) []) 0%float in
+  let Rr := fun v => nth v (nth (j + 1) (m1_vars m) []) 0%float in
+  wf1 m -> (j + 1 < n)%nat ->
+  (forall k, (k < n)%nat -> ffinite (xs k) /\ FR (xs k) = (IZR (X k) * bpow radix2 e)%R) ->
+  (forall k, (k + 1 < n)%nat -> (X k < X (k + 1)%nat)%Z) ->
+  ffinite x -> FR x = (IZR Xx * bpow radix2 e)%R ->
+  (forall k, (k < n)%nat -> (Z.abs (X k - Xx) < 2 ^ 53)%Z) ->
+  (-23 <= e <= 971)%Z ->
+  (X j <= Xx <= X (j + 1)%nat)%Z -> (Xx = X (j + 1)%nat -> (j + 2 = n)%nat) ->
+  (X (j + 1)%nat - X j = 2 ^ P)%Z -> (0 <= P <= 52)%Z ->
+  (forall v, (v < m1_nvars m)%nat -> ffinite (L v) /\ FR (L v) = (IZR (F0 v) * bpow radix2 g)%R) ->
+  (forall v, (v < m1_nvars m)%nat -> ffinite (Rr v) /\ FR (Rr v) = (IZR (F1 v) * bpow radix2 g)%R) ->
+  (forall v, (v < m1_nvars m)%nat ->
+     (Z.abs (F1 v - F0 v) * 2 ^ P < 2 ^ 53 /\ Z.abs (F0 v) * 2 ^ P < 2 ^ 53 /\ Z.abs (F1 v) * 2 ^ P < 2 ^ 53)%Z) ->
+  (-1074 <= g <= 971)%Z -> (-1074 <= g - P - e <= 971)%Z -> (-1074 <= g - P)%Z ->
+  exists r, interp1 (A := AF) Params.MESH_SNAP m x = Ok r /\ length r = m1_nvars m /\
+    forall v, (v < m1_nvars m)%nat ->
+      ffinite (nth v r 0%float) /\
+      FR (nth v r 0%float)
+        = (FR (L v) + (FR (Rr v) - FR (L v)) / (FR (xs (j + 1)%nat) - FR (xs j)) * (FR x - FR (xs j)))%R /\
+      (Xx = X j -> FR (nth v r 0%float) = FR (L v)) /\
+      (Xx = X (j + 1)%nat -> FR (nth v r 0%float) = FR (Rr v)).
+Proof.
+  intros m x X F0 F1 Xx e g P j n xs L Rr Hwf Hj HX Hinc Fx Rx Hb He Hin Hlast HP HP' HF0 HF1 HFb Hg Hq Hgp.
+  exact (interp_exact_float_lemma m x X F0 F1 Xx e g P j Hwf Hj HX Hinc Fx Rx Hb He Hin Hlast HP HP' HF0 HF1 HFb Hg Hq Hgp).
+Qed.
+Check interp_exact_float : forall (m : mesh1 AF PrimFloat.float) (x : PrimFloat.float) (X F0 F1 : nat -> Z)
+  (Xx e g P : Z) (j : nat),
+  let n := length (m1_nodes m) in
+  let xs := fun k => nth k (m1_nodes m) 0%float in
+  let L := fun v => nth v (nth j (m1_vars m) []) 0%float in
+  let Rr := fun v => nth v (nth (j + 1) (m1_vars m) []) 0%float in
+  wf1 m -> (j + 1 < n)%nat ->
+  (forall k, (k < n)%nat -> ffinite (xs k) /\ FR (xs k) = (IZR (X k) * bpow radix2 e)%R) ->
+  (forall k, (k + 1 < n)%nat -> (X k < X (k + 1)%nat)%Z) ->
+  ffinite x -> FR x = (IZR Xx * bpow radix2 e)%R ->
+  (forall k, (k < n)%nat -> (Z.abs (X k - Xx) < 2 ^ 53)%Z) ->
+  (-23 <= e <= 971)%Z ->
+  (X j <= Xx <= X (j + 1)%nat)%Z -> (Xx = X (j + 1)%nat -> (j + 2 = n)%nat) ->
+  (X (j + 1)%nat - X j = 2 ^ P)%Z -> (0 <= P <= 52)%Z ->
+  (forall v, (v < m1_nvars m)%nat -> ffinite (L v) /\ FR (L v) = (IZR (F0 v) * bpow radix2 g)%R) ->
+  (forall v, (v < m1_nvars m)%nat -> ffinite (Rr v) /\ FR (Rr v) = (IZR (F1 v) * bpow radix2 g)%R) ->
+  (forall v, (v < m1_nvars m)%nat ->
+     (Z.abs (F1 v - F0 v) * 2 ^ P < 2 ^ 53 /\ Z.abs (F0 v) * 2 ^ P < 2 ^ 53 /\ Z.abs (F1 v) * 2 ^ P < 2 ^ 53)%Z) ->
+  (-1074 <= g <= 971)%Z -> (-1074 <= g - P - e <= 971)%Z -> (-1074 <= g - P)%Z ->
+  exists r, interp1 (A := AF) Params.MESH_SNAP m x = Ok r /\ length r = m1_nvars m /\
+    forall v, (v < m1_nvars m)%nat ->
+      ffinite (nth v r 0%float) /\
+      FR (nth v r 0%float)
+        = (FR (L v) + (FR (Rr v) - FR (L v)) / (FR (xs (j + 1)%nat) - FR (xs j)) * (FR x - FR (xs j)))%R /\
+      (Xx = X j -> FR (nth v r 0%float) = FR (L v)) /\
+      (Xx = X (j + 1)%nat -> FR (nth v r 0%float) = FR (Rr v)).
+Print Assumptions interp_exact_float.
+(* nodes 0, 1/4, 3/4, 7/4 (grid 2^-2, cell widths 1, 2, 4 grid units), integer data 3, -5, 7, 2; x = 1/2 in cell 1:
+   -5 + (12 / 0.5) * 0.25 = 1; at the interior node 3/4 the value 7, at the last node the value 2 *)
+Example interp_exact_float_nonvacuous :
+  let m := ex_imeshF in
+  let n := length (m1_nodes m) in
+  let xs := fun k => nth k (m1_nodes m) 0%float in
+  let L := fun v => nth v (nth 1 (m1_vars m) []) 0%float in
+  let Rr := fun v => nth v (nth (1 + 1) (m1_vars m) []) 0%float in
+  wf1 m /\ (1 + 1 < n)%nat /\
+  (forall k, (k < n)%nat -> ffinite (xs k) /\ FR (xs k) = (IZR (ex_iX k) * bpow radix2 (-2))%R) /\
+  (forall k, (k + 1 < n)%nat -> (ex_iX k < ex_iX (k + 1)%nat)%Z) /\
+  ffinite 0.5%float /\ FR 0.5%float = (IZR 2 * bpow radix2 (-2))%R /\
+  (forall k, (k < n)%nat -> (Z.abs (ex_iX k - 2) < 2 ^ 53)%Z) /\
+  (-23 <= -2 <= 971)%Z /\
+  (ex_iX 1 <= 2 <= ex_iX (1 + 1)%nat)%Z /\ (2%Z = ex_iX (1 + 1)%nat -> (1 + 2 = n)%nat) /\
+  (ex_iX (1 + 1)%nat - ex_iX 1 = 2 ^ 1)%Z /\ (0 <= 1 <= 52)%Z /\
+  (forall v, (v < m1_nvars m)%nat -> ffinite (L v) /\ FR (L v) = (IZR (-5) * bpow radix2 0)%R) /\
+  (forall v, (v < m1_nvars m)%nat -> ffinite (Rr v) /\ FR (Rr v) = (IZR 7 * bpow radix2 0)%R) /\
+  (forall v : nat, (v < m1_nvars m)%nat ->
+     (Z.abs (7 - -5) * 2 ^ 1 < 2 ^ 53 /\ Z.abs (-5) * 2 ^ 1 < 2 ^ 53 /\ Z.abs 7 * 2 ^ 1 < 2 ^ 53)%Z) /\
+  (-1074 <= 0 <= 971)%Z /\ (-1074 <= 0 - 1 - -2 <= 971)%Z /\ (-1074 <= 0 - 1)%Z /\
+  interp1 (A := AF) Params.MESH_SNAP m 0.5%float = Ok [1%float] /\
+  interp1 (A := AF) Params.MESH_SNAP m 0.75%float = Ok [7%float] /\
+  interp1 (A := AF) Params.MESH_SNAP m 1.75%float = Ok [2%float].
+Proof.
+  cbv zeta. split; [exact ex_imeshF_wf|]. split; [cbn; lia|].
+  split; [exact ex_imeshF_nodes|]. split; [exact ex_imeshF_incr|].
+  split; [exact (proj1 ex_imeshF_x)|]. split; [exact (proj2 ex_imeshF_x)|].
+  split; [exact ex_imeshF_bound|]. split; [lia|]. split; [cbn; lia|]. split; [cbn; lia|].
+  split; [cbn; lia|]. split; [lia|]. split; [exact ex_imeshF_L|]. split; [exact ex_imeshF_R|].
+  split; [intros; simpl; lia|]. split; [lia|]. split; [lia|]. split; [lia|]. exact ex_imeshF_values.
+Qed.
+
+(* Mesh1D::get_interpolated_vars at binary64 AT A NODE k other than the last: node coordinates on a grid 2^e no finer
+   than the window, ANY finite nodal data, ANY cell widths: the nodal values of node k are returned exactly (the float
+   itself unless it is a zero) as soon as the slopes of cell k are finite -- the winning cell is cell k with x - xl = 0.
+   At the LAST node the result is left + ((right - left)/w) * w, equal to `right` only up to rounding unless w is a
+   power of two (interp_exact_float): for nodes 0, 49 and data 0, 1 it is 1 - 2^-53 (interp_last_node_inexact). *)
+Theorem interp_node_exact_float : forall (m : mesh1 AF PrimFloat.float) (x : PrimFloat.float) (X : nat -> Z) (e : Z) (k : nat),
+  let n := length (m1_nodes m) in
+  let xs := fun i => nth i (m1_nodes m) 0%float in
+  let L := fun v => nth v (nth k (m1_vars m) []) 0%float in
+  let Rr := fun v => nth v (nth (k + 1) (m1_vars m) []) 0%float in
+  wf1 m -> (k + 1 < n)%nat ->
+  (forall i, (i < n)%nat -> ffinite (xs i) /\ FR (xs i) = (IZR (X i) * bpow radix2 e)%R) ->
+  (forall i, (i + 1 < n)%nat -> (X i < X (i + 1)%nat)%Z) ->
+  ffinite x -> FR x = FR (xs k) ->
+  (forall i, (i < n)%nat -> (Z.abs (X i - X k) < 2 ^ 53)%Z) ->
+  (-23 <= e <= 971)%Z ->
+  (forall v, (v < m1_nvars m)%nat -> ffinite (L v) /\ ffinite ((Rr v - L v) / (xs (k + 1)%nat - xs k))%float) ->
+  exists r, interp1 (A := AF) Params.MESH_SNAP m x = Ok r /\ length r = m1_nvars m /\
+    forall v, (v < m1_nvars m)%nat ->
+      ffinite (nth v r 0%float) /\ FR (nth v r 0%float) = FR (L v) /\
+      (FR (L v) <> 0%R -> nth v r 0%float = L v).
+Proof.
+  intros m x X e k n xs L Rr Hwf Hk HX Hinc Fx Rx Hb He Hq.
+  exact (interp_node_exact_float_lemma m x X e k Hwf Hk HX Hinc Fx Rx Hb He Hq).
+Qed.
+Check interp_node_exact_float : forall (m : mesh1 AF PrimFloat.float) (x : PrimFloat.float) (X : nat -> Z) (e : Z) (k : nat),
+  let n := length (m1_nodes m) in
+  let xs := fun i => nth i (m1_nodes m) 0%float in
+  let L := fun v => nth v (nth k (m1_vars m) []) 0%float in
+  let Rr := fun v => nth v (nth (k + 1) (m1_vars m) []) 0%float in
+  wf1 m -> (k + 1 < n)%nat ->
+  (forall i, (i < n)%nat -> ffinite (xs i) /\ FR (xs i) = (IZR (X i) * bpow radix2 e)%R) ->
+  (forall i, (i + 1 < n)%nat -> (X i < X (i + 1)%nat)%Z) ->
+  ffinite x -> FR x = FR (xs k) ->
+  (forall i, (i < n)%nat -> (Z.abs (X i - X k) < 2 ^ 53)%Z) ->
+  (-23 <= e <= 971)%Z ->
+  (forall v, (v < m1_nvars m)%nat -> ffinite (L v) /\ ffinite ((Rr v - L v) / (xs (k + 1)%nat - xs k))%float) ->
+  exists r, interp1 (A := AF) Params.MESH_SNAP m x = Ok r /\ length r = m1_nvars m /\
+    forall v, (v < m1_nvars m)%nat ->
+      ffinite (nth v r 0%float) /\ FR (nth v r 0%float) = FR (L v) /\
+      (FR (L v) <> 0%R -> nth v r 0%float = L v).
+Print Assumptions interp_node_exact_float.
+Example interp_node_exact_float_nonvacuous :
+  let m := ex_imesh49 in
+  let n := length (m1_nodes m) in
+  let xs := fun i => nth i (m1_nodes m) 0%float in
+  let L := fun v => nth v (nth 0 (m1_vars m) []) 0%float in
+  let Rr := fun v => nth v (nth (0 + 1) (m1_vars m) []) 0%float in
+  wf1 m /\ (0 + 1 < n)%nat /\
+  (forall i, (i < n)%nat -> ffinite (xs i) /\ FR (xs i) = (IZR (ex_i49X i) * bpow radix2 0)%R) /\
+  (forall i, (i + 1 < n)%nat -> (ex_i49X i < ex_i49X (i + 1)%nat)%Z) /\
+  ffinite 0%float /\ FR 0%float = FR (xs 0%nat) /\
+  (forall i, (i < n)%nat -> (Z.abs (ex_i49X i - ex_i49X 0) < 2 ^ 53)%Z) /\
+  (-23 <= 0 <= 971)%Z /\
+  (forall v, (v < m1_nvars m)%nat -> ffinite (L v) /\ ffinite ((Rr v - L v) / (xs (0 + 1)%nat - xs 0%nat))%float) /\
+  interp1 (A := AF) Params.MESH_SNAP m 0%float = Ok [0%float] /\
+  (* and the last node of the same mesh is NOT reproduced *)
+  (exists r, interp1 (A := AF) Params.MESH_SNAP m 49%float = Ok [r] /\
+             PrimFloat.eqb r 1%float = false /\ PrimFloat.ltb r 1%float = true).
+Proof.
+  cbv zeta. split; [exact ex_imesh49_wf|]. split; [cbn; lia|]. split; [exact ex_imesh49_nodes|].
+  split; [intros i Hi; destruct i as [|i]; [cbn; lia|cbn in Hi; lia]|].
+  split; [vm_compute; reflexivity|]. split; [reflexivity|].
+  split; [intros i Hi; do 2 (destruct i as [|i]; [cbn; lia|]); cbn in Hi; lia|].
+  split; [lia|]. split; [exact ex_imesh49_slopes|]. exact interp_last_node_inexact.
+Qed.
